@@ -7,7 +7,7 @@ S->I: TLC enumerates verdict tables: for every script item of a family (all Roto
       depth 2 and 3) the set of Rust signatures of the family's universe that must be handed
       out; everything else of the universe must be refused.  python prints the items as a Roto
       script, the harness compiles it once and calls get_function::<F>(name) for every F of the
-      universe (compiled-in table harness/src/bin/c04_types.rs, generated from TLC's Universe
+      universe (compiled-in table harness/src/tables/c04_types.rs, generated from TLC's Universe
       sets by tools/gen_c04_types.py); the set of handed-out signatures must be TLC's set.
 I->S: seeded random script items (mutations of the Roto image of table entries, arity 0..8,
       filtermaps, unknown / helper names) are probed with several table entries each; the
